@@ -663,8 +663,11 @@ def gen_c_case(rnd, fam, nlinks, nsteps, first=None, kinds=None, path="var"):
     v0 = gen_v0(rnd, name, v_args, dom, False)
     for i in range(1, nlinks):
         ki = (kinds[i] if kinds and i < len(kinds) and kinds[i] else rnd.choice(["inst", "inst", "cls", "default"]))
-        if ki == "default" and not (onto and all(l["kind"] != "cls" or not l.get("arg_vars") for l in links)):
-            ki = "inst"    # the default of a transformed distribution needs the previous links onto / fixed
+        if ki == "default" and not (onto and all(l["kind"] != "cls" or not l.get("arg_vars") for l in links)
+                                    and all(l["name"] != "TDdefault" for l in links)):
+            # the default of a transformed distribution needs the previous links onto; at most one per chain
+            # (the default of a default nests the whole chain twice: interval terms explode)
+            ki = "inst"
         if ki == "default":
             links.append({"kind": "default", "name": "TDdefault", "args": []})
             dom = "real"
